@@ -308,6 +308,43 @@ def dateline_gridder(h_deg=0.01, ncell=4):
     return _g[key]
 
 
+def run_along(case):
+    """specs/grid/GridAlong.tla: a leg along the antimeridian, its points written +180 / -180."""
+    warnings.simplefilter('ignore')
+    try:
+        g, h = dateline_gridder()
+        c = case['c']
+        lon = {'plus': np.pi, 'minus': -np.pi}
+        lons = np.array([lon[c['s1']], lon[c['s2']]])
+        lats = np.array([c['ys'], c['ye']]) / Q * h
+        alts = (np.array([1, 3]) / Q + PAD) * 1000.0
+        times = (np.array([2, 5]) / Q + PAD) * 600.0
+        try:
+            tl, to, ta, tt, sv, iv = grid_twice(g, lats, lons, alts, times, state_variables=(np.array([7.0, 9.0]),), integrated_variables=(np.array([VALUE]), whole_var()))
+        except Exception as e:
+            return [(pr, f'along-antimeridian-raised-{type(e).__name__}', f'leg along the antimeridian {c}: raised {type(e).__name__}: {e}') for pr in _props_of(e)]
+        devs = []
+        shares = np.asarray(iv[0], float) / VALUE
+        total = float(np.sum(shares))
+        if not (1 - 1e-9 <= total <= 1 + 1e-6):
+            devs.append(('C04', 'along-antimeridian-not-conserved', f'leg along the antimeridian {c} (longitudes {lons.tolist()} rad): {len(shares)} pieces add up to {total:.9f} of the segment value'))
+        rows = {}
+        for a, o, sh in zip(tl, to, shares):
+            if abs(sh) > 1e-9:
+                rows[int(round(a / h))] = rows.get(int(round(a / h)), 0.0) + float(sh)
+                if min(abs(abs(o) - np.pi), abs(abs(o) - (np.pi - h))) > 1e-9:
+                    devs.append(('C05', 'along-antimeridian-far-column', f'leg along the antimeridian {c}: a piece of {sh:.6f} lies in the column whose lower edge is at longitude {o} rad'))
+                    break
+        want = {r: case['rows'][r] / case['len'] for r in range(len(case['rows'])) if case['rows'][r] > 0}
+        if set(rows) != set(want) or any(abs(rows[r] - want[r]) > 1e-6 for r in want):
+            devs.append(('C05', 'along-antimeridian-row-shares', f'leg along the antimeridian {c}: latitude rows receive {rows}; specification: {want}'))
+        return devs
+    except Exception as e:
+        import traceback
+
+        return [('machinery', 'machinery', f'{type(e).__name__}: {e}\n{traceback.format_exc()}')]
+
+
 def run_dateline(case):
     warnings.simplefilter('ignore')
     try:
@@ -469,7 +506,7 @@ def run_grid(ctx: Ctx, pid: str):
         if 'grid_session' in case:
             run_grid_sessions(ctx, pid)
             return
-        res = run_segment((case['seg'], tuple(case['frame']))) if 'seg' in case else (run_chain((case['chain'], tuple(case['frame']))) if 'chain' in case else run_dateline(case['dateline']))
+        res = run_segment((case['seg'], tuple(case['frame']))) if 'seg' in case else (run_chain((case['chain'], tuple(case['frame']))) if 'chain' in case else run_along(case['along']) if 'along' in case else run_dateline(case['dateline']))
         for prop, key, desc in res:
             if prop == pid:
                 ctx.violation(key, desc, case)
@@ -480,6 +517,7 @@ def run_grid(ctx: Ctx, pid: str):
     tlc.check(ctx, 'grid/GridSegment', 'grid/MC_GridSegment.cfg', sub=sub, timeout=1800)
     segs = tlc.check(ctx, 'grid/GridSegmentGen', 'grid/Gen_GridSegment.cfg', sub=sub, timeout=1800)['emitted']
     dls = tlc.check(ctx, 'grid/GridDateline', 'grid/MC_GridDateline.cfg', workers=8)['emitted']
+    alongs = tlc.check(ctx, 'grid/GridAlong', 'grid/MC_GridAlong.cfg', workers=4)['emitted']
     nchain = 400 if ctx.quick else 5000
     chains = tlc.check(ctx, 'grid/GridChain', 'grid/Sim_GridChain.cfg', workers=1, simulate=f'num={nchain}', depth=8, seed=ctx.seed)['emitted']
     ctx.exhaustive = True
@@ -513,6 +551,10 @@ def run_grid(ctx: Ctx, pid: str):
         ctx.case_done(('chain', case['pts']), nontrivial=True)
         ctx.sample({'trajectory': case['pts'], 'gridded': case['g'][:3]}, limit=3)
         report(devs, {'chain': case, 'frame': fk})
+    for case, devs in zip(alongs, pmap(run_along, alongs)):
+        ctx.case_done(('along', case['c']), nontrivial=True)
+        ctx.sample({'along_antimeridian': case['c'], 'rows': case['rows']}, limit=2)
+        report(devs, {'along': case})
     for case, devs in zip(dls, pmap(run_dateline, dls)):
         ctx.case_done(('dateline', case['c']), nontrivial=True)
         ctx.sample({'antimeridian': case['c'], 'leg1': case['leg1'], 'leg2': case['leg2']}, limit=4)
